@@ -66,6 +66,8 @@ def configs(tier, seed):
         out.append({'n': [nr, nc], 'support': [list(x) for x in sup], 'shape': [Sr, Sc], 'prop': [Pr, Pc], 'os': os, 'mask': mask,
                     'scales': rng.choice(['axis', 'axis', 'scalar']), 'dir': rng.choice(['pupil', 'pupil', 'image']),
                     'defaults': False})
+        if mask is not None and rng.random() < 0.4:
+            out[-1]['soft'] = True          # an antialiased (fractional-valued) output mask: its support still chooses the window
         if len(sup) >= 2 and rng.random() < 0.4:
             # the same aperture as k per-segment masks (several input fields): the coherent sum is unchanged
             k = rng.randint(2, min(3, len(sup)))
@@ -122,6 +124,8 @@ def run(W, cfg):
         w = lt.Wavefront(lam, focal_length=f, ptype=lt.image)
     w = w * plane
     omask = None if cfg['mask'] is None else rnp.array(cfg['mask'])
+    if omask is not None and cfg.get('soft'):
+        omask = omask * rnp.where((rnp.add.outer(rnp.arange(omask.shape[0]), rnp.arange(omask.shape[1])) % 2) == 0, 0.5, 0.25)
     kw = {}
     if cfg.get('defaults') and cfg['prop'] == cfg['shape']:
         kw = {'shape': tuple(cfg['shape'])}           # prop_shape defaults to shape
